@@ -17,7 +17,7 @@ FILES = ["src/parser.rs", "src/element.rs", "src/element/identifier.rs", "src/el
 
 def sh(cmd, cwd=None, timeout=3600):
     try:
-        p = subprocess.run(cmd, shell=True, cwd=cwd, stdout=subprocess.PIPE, stderr=subprocess.STDOUT, text=True, timeout=timeout)
+        p = subprocess.run(cmd, shell=True, executable='/bin/bash', cwd=cwd, stdout=subprocess.PIPE, stderr=subprocess.STDOUT, text=True, timeout=timeout)
         return p.returncode, p.stdout
     except subprocess.TimeoutExpired:
         return 124, "timeout"
